@@ -114,6 +114,9 @@ def lean_type(t):
         return ' × '.join(_paren(lean_type(p)) for p in _prod_parts(t))
     if t.startswith('List '):
         return 'List ' + _paren(lean_type(t[5:]))
+    if t.startswith('Tuple') and ' ' in t:
+        n, et = int(t.split()[0][5:]), t.split(' ', 1)[1]
+        return ' × '.join([_paren(lean_type(et))] * n)
     if t in LEAN_TYPE:
         return LEAN_TYPE[t]
     return t
@@ -243,6 +246,13 @@ class FnTr:
         extra = want[len(have):]
         if len(extra) > len(fn.args.defaults):
             raise Unsupported(f'`{inst.qual}`: undeclared parameters without default: {extra}')
+        for n, d in zip(reversed(want), reversed(fn.args.defaults)):
+            if n in extra:
+                if isinstance(d, ast.Constant) and isinstance(d.value, bool):
+                    self.env[n] = Val('true' if d.value else 'false', 'Bool')
+                elif isinstance(d, ast.Constant) and d.value is None:
+                    self.env[n] = Val('()', 'None')
+                # other defaults stay unbound: using them is reported as an unsupported name
 
     def sub(self):
         c = FnTr.__new__(FnTr)
@@ -477,6 +487,20 @@ class FnTr:
         if len(targets) != 1:
             raise Unsupported(f'`{self.inst.qual}`: chained assignment')
         tgt = targets[0]
+        if isinstance(tgt, ast.Tuple) and not isinstance(value, ast.Tuple):
+            v = self.expr(value)
+            n = len(tgt.elts)
+            if not (v.typ.startswith('Tuple') and v.typ.split()[0] == f'Tuple{n}'):
+                raise Unsupported(f'`{self.inst.qual}`: tuple assignment from a non-tuple')
+            et = v.typ.split(' ', 1)[1]
+            tmp = self.gensym('t')
+            projs = [f'{tmp}' + '.2' * i + ('.1' if i < n - 1 else '') for i in range(n)]
+            for t, pr in zip(tgt.elts, projs):
+                if not isinstance(t, ast.Name):
+                    raise Unsupported(f'`{self.inst.qual}`: unpacking into `{ast.unparse(t)}`')
+                self.env[t.id] = Val(pr, et, path=t.id)
+                self.narrow.pop(t.id, None)
+            return self.wrap(f'let {tmp} := {v.text}\n' + self.block(rest))
         if isinstance(tgt, ast.Tuple):
             if not isinstance(value, ast.Tuple) or len(value.elts) != len(tgt.elts):
                 raise Unsupported(f'`{self.inst.qual}`: tuple assignment from a non-tuple')
@@ -775,6 +799,10 @@ class FnTr:
 
     def compare2(self, a, op, b):
         num = ('Dt', 'Td', 'Int')
+        if isinstance(op, (ast.In, ast.NotIn)) and (b.typ, '__contains__', (a.typ,)) in self.u.abstract:
+            tmpl, typ = self.u.abstract[(b.typ, '__contains__', (a.typ,))]
+            r = Val('(' + tmpl.format(_paren(b.text), _paren(a.text)) + ')', typ)
+            return r if isinstance(op, ast.In) else Val(f'(!{r.text})', 'Bool')
         if isinstance(op, (ast.In, ast.NotIn)):
             cls = self.u.class_of(b.typ)
             if not cls:
@@ -886,7 +914,8 @@ class FnTr:
                 return Val('(' + tmpl.format(*[_paren(x.text) for x in [recv] + args]) + ')', typ)
             if qual and (qual in self.u.src.defs or any(k[0] == qual for k in self.u.externals)):
                 inst = self.u.find(qual, tuple(a.typ for a in args))
-                return self.apply(inst, [recv] + args)
+                is_method = bool(inst.params) and inst.params[0][0] == 'self'      # a staticmethod takes no receiver
+                return self.apply(inst, ([recv] if is_method else []) + args)
             raise Unsupported(f'`{self.inst.qual}`: method `.{f.attr}` of {recv.typ} at {tuple(a.typ for a in args)}')
         raise Unsupported(f'`{self.inst.qual}`: call `{ast.unparse(e)[:80]}`')
 
